@@ -42,7 +42,13 @@ int MPI_Allreduce(const void *sbuf, void *rbuf, int count, MPI_Datatype dt, MPI_
     (void)sbuf; (void)dt; (void)op; (void)comm;
     int *v = (int *)rbuf;
     allreduce_calls++;
+#if R >= S
+    /* Inv gives local pos < S <= R: the maximum is R (kept concrete for the solver) */
+    VASSERTM(count == 1 && *v < R, "harness: local position below the enumerated remote maximum");
+    *v = R;
+#else
     if (count == 1 && *v < R) *v = R;                      /* MAX over all ranks */
+#endif
     return MPI_SUCCESS;
 }
 
@@ -53,12 +59,15 @@ static parsec_taskpool_t *expected(uint32_t j)
     return NULL;
 }
 
-#define SMAXPOST 64
+#ifndef SMAXPOST
+#define SMAXPOST 64     /* spec.py: max(2*S, smallest power of two > R) */
+#endif
 static void check_inv(const char *unused)
 {
     (void)unused;
     uint32_t sz = taskpool_array_size;
     VASSERTM(sz >= 1 && (sz & (sz - 1)) == 0 && sz <= SMAXPOST, "Inv: size is a power of two");
+    VASSERTM(taskpool_array_lock == PARSEC_ATOMIC_UNLOCKED, "Inv: registry lock released");
     VASSERTM(taskpool_array_pos < sz, "Inv: pos < size (the next id always fits after one doubling)");
     VASSERTM((sz == 1) == (taskpool_array == NULL) || (sz >= 2 && taskpool_array != NULL), "Inv: array allocated whenever size >= 2");
     if (taskpool_array != NULL) {
@@ -142,7 +151,11 @@ int main(void)
 #elif OP == 2
     if (l == tp) VWITNESS("registered taskpool found");
 #elif OP == 3
+#if S > 2
     if (q == gid[i] && st[(i + 1) % NTP] == 2) VWITNESS("unregistered id looked up, another taskpool still registered");
+#else
+    if (q == gid[i]) VWITNESS("unregistered id looked up");
+#endif
 #elif OP == 4
 #if R >= S
     if (mpi_on && taskpool_array_size > S) VWITNESS("sync that grows the array");
@@ -151,8 +164,12 @@ int main(void)
 #endif
     if (!mpi_on || (uint32_t)R <= pos0) VWITNESS("sync without effect");
 #else
+#if S > 1
     if (l != NULL) VWITNESS("lookup hit");
     if (q <= taskpool_array_pos && l == NULL) VWITNESS("lookup of a reserved-only / unregistered id");
+#else
+    if (l == NULL && q == 1) VWITNESS("lookup on the initial (unallocated) registry");
+#endif
 #endif
     return 0;
 }
